@@ -92,9 +92,13 @@ def attr_const_text(v) -> str:
     raise Unmodelled(f"attribute value {v!r}")
 
 
+OPSET_ALIASES = {"op": 18, "opset17": 17, "opset18": 18, "opset19": 19, "opset20": 20, "opset21": 21}
+DEFAULT_OPSET_VERSION = 18
+
+
 class Encoder:
-    def __init__(self, op_aliases=("op",), functions: dict | None = None):
-        self.op_aliases = set(op_aliases)
+    def __init__(self, op_aliases=None, functions: dict | None = None):
+        self.op_aliases = dict(op_aliases or OPSET_ALIASES)
         # name -> list of parameter names of tensor kind (for `T_<param>` type variables)
         self.functions = functions or {}
 
@@ -119,11 +123,12 @@ class Encoder:
             f = e.func
             if isinstance(f, ast.Attribute) and isinstance(f.value, ast.Name) and f.value.id in self.op_aliases:
                 dom, name = "_", f.attr
-                sig = schema_sig(name)
+                ver = self.op_aliases[f.value.id]
+                sig = schema_sig(name, ver)
                 if sig is None:
-                    sigs = sx("sig", "F", "F", "F", sx())
+                    sigs = sx("sig", "F", "F", "F", sx(), str(ver))
                 else:
-                    sigs = sx("sig", _b(sig[0]), _b(sig[1]), _b(sig[2]), sx(*sig[3]))
+                    sigs = sx("sig", _b(sig[0]), _b(sig[1]), _b(sig[2]), sx(*sig[3]), str(ver))
             elif isinstance(f, ast.Name) and f.id in self.functions:
                 dom, name = "this", f.id
                 sigs = sx("sig", "T", "F", "F", sx(*[f"T_{p}" for p in self.functions[f.id]]))
@@ -251,7 +256,8 @@ class Encoder:
                 ret = str(len(r.slice.elts) if isinstance(r.slice, ast.Tuple) else 1)
             else:
                 ret = "1"
-        return sx("func", fn.name, sx("params", *params), sx("ret", ret), sx("body", *self.block(fn.body)))
+        return sx("func", fn.name, sx("params", *params), sx("ret", ret), sx("opset", str(DEFAULT_OPSET_VERSION)),
+                  sx("body", *self.block(fn.body)))
 
 
 def encode_function(src: str, functions: dict | None = None) -> str:
